@@ -63,7 +63,11 @@ def cutSelection (t : Text) (cur orig : Nat) (ty : SelType) (vi : Bool) : Buf ×
   let (rem, cuts, nc, lastTo) := cutLoop t (selectionRanges t cur orig ty vi) ([], [], cur, 0)
   let rem := rem ++ t.drop lastTo
   let cutText := join ['\n'] cuts
-  let cutText := if ty = .lines ∧ cutText.getLast? = some '\n' then cutText.dropLast else cutText
+  -- LINES: drop the newline that terminates the last selected line (there is none when the
+  -- selection reaches the end of the text)
+  let cutText :=
+    if ty = .lines ∧ cutText.getLast? = some '\n' ∧ (findNlFrom t (max cur orig)).isSome then cutText.dropLast
+    else cutText
   ({ text := rem, cur := nc }, { text := cutText, ty := ty })
 
 /-- `TextObject(orig - cursor, type=…).cut(buffer)` for the text object that
